@@ -403,6 +403,8 @@ def tour_cache_rules(ctx, tag="R3"):
     infinity_guard(ctx, t_sites)
     source_sets(ctx)
     recomputed_from_new_nodes(ctx)
+    from . import formulas
+    formulas.tour_delta_signs(ctx, tag)
 
 
 def cycle_update_rules(ctx):
@@ -415,6 +417,9 @@ def cycle_update_rules(ctx):
     neighbour_wiring(ctx, "R3")
     three_opt_reconnection(ctx, "R3")
     counter_plain_sum(ctx, common.sites_of(ctx, TRANSITION))
+    from . import formulas
+    formulas.schedule_cost_signs(ctx, "R3")
+    formulas.transition_total_signs(ctx, "R3")
     common.bookkeeping_sees_new_maps(ctx, "R3", common.sites_of(ctx, SCHEDULE))
 
 
@@ -428,6 +433,8 @@ def rules(ctx):
     infinity_guard(ctx, t_sites)
     source_sets(ctx)
     recomputed_from_new_nodes(ctx)
+    from . import formulas
+    formulas.tour_delta_signs(ctx, "R3")
     cost_delta_form(ctx, s_sites)
     formation_update_order(ctx)
     componentwise_pair_updates(ctx)
